@@ -223,6 +223,92 @@ def _mk_assembled(kind):
     return ob
 
 
+def _mk_heaviside_logdet():
+    """step link: get_lb_log_det EQUALS E[ln det Sigma(x)] = ln det(AA') + ln 2 * sum_k P(h_k >= 0)  (det_gram_diag)"""
+    def ob(w):
+        xp = w.xp
+        w.literal_arange = True
+        obj, par = gen_hetero(w, "heaviside", "square")
+        p_x, px = SP.gen_pdf(w, "x", "N", "Dx")
+        m = xp.einsum("ki,ni->nk", par["wv"], px["mu"]) + par["w0"][None]
+        s = xp.sqrt(xp.einsum("ki,nij,kj->nk", par["wv"], px["S"], par["wv"]))
+        S0 = xp.einsum("aij,akj->aik", par["A"], par["A"])
+        spec = w.logdet(S0) + xp.log(2.0 + 0.0 * m[:, 0]) * xp.sum(w.Phi(m / s), axis=1)
+        w.equal("get_lb_log_det=E[ln det Sigma(x)] (exact for the step link)", obj.get_lb_log_det(p_x), spec)
+    return ob
+
+
+def _mk_heaviside_term():
+    """step link, one noise unit: get_lb_heteroscedastic_term_i EQUALS 1/2 E[g^2 1[h >= 0]] for the jointly Gaussian pair
+    g = a'(y - Mx - b), h = w'x + w0 -- from the conditional law of g given h (G3) and the truncated moments of h (G4)"""
+    def ob(w):
+        xp = w.xp
+        w.literal_arange = True
+        obj, par = gen_hetero(w, "heaviside", "square")
+        p_x, px = SP.gen_pdf(w, "x", "N", "Dx")
+        y = w.arr("y", "N", "Dy")
+        W_i, w0, wv = _row(w, "wi")
+        a_i = w.arr("ai", "Dy")
+        val = obj.get_lb_heteroscedastic_term_i(p_x, y, W_i, a_i)         # REAL  [1, N]
+        M, b = par["M"][0], par["b"][0]
+        mu, Sx = px["mu"], px["S"]
+        r0 = y - b[None] - xp.einsum("ij,nj->ni", M, mu)
+        eg = xp.einsum("d,nd->n", a_i, r0)
+        aM = xp.einsum("d,di->i", a_i, M)
+        vg = xp.einsum("i,nij,j->n", aM, Sx, aM)
+        m = xp.einsum("i,ni->n", wv, mu) + w0
+        s2 = xp.einsum("i,nij,j->n", wv, Sx, wv)
+        s = xp.sqrt(s2)
+        cgh = -xp.einsum("i,nij,j->n", aM, Sx, wv)
+        c1 = cgh / s2
+        c0 = eg - c1 * m
+        al = -m / s
+        J0 = 1.0 - w.Phi(al)
+        J1 = w.phi(al)
+        J2 = al * w.phi(al) + J0
+        Eh0, Eh1, Eh2 = J0, m * J0 + s * J1, m ** 2 * J0 + 2.0 * m * s * J1 + s2 * J2
+        Eg2 = c0 ** 2 * Eh0 + 2.0 * c0 * c1 * Eh1 + c1 ** 2 * Eh2 + (vg - cgh ** 2 / s2) * Eh0
+        w.equal("heteroscedastic_term_i=E[g^2 1[h>=0]]/2 (exact)", val, (0.5 * Eg2)[None])
+    return ob
+
+
+def _mk_heaviside_quadratic():
+    """assembly (modular): get_lb_quadratic_term = E[(y-Mx-b)' L (y-Mx-b)] - sum_k term_k, with term_k the real
+    get_lb_heteroscedastic_term_i at (W_k, a_k = column k of L A) -- exact for the step link because
+    Sigma(x)^-1 = L - sum_k a_k a_k' [h_k >= 0]/2 in the regime Da = Dy"""
+    def ob(w):
+        xp = w.xp
+        w.literal_arange = True
+        obj, par = gen_hetero(w, "heaviside", "square")
+        p_x, px = SP.gen_pdf(w, "x", "N", "Dx")
+        y = w.arr("y", "N", "Dy")
+        val = obj.get_lb_quadratic_term(p_x, y)                           # REAL  [1, N]
+        M, b = par["M"][0], par["b"][0]
+        L0 = obj.Lambda[0]
+        r0 = y - b[None] - xp.einsum("ij,nj->ni", M, px["mu"])
+        hom = xp.einsum("ni,ij,nj->n", r0, L0, r0) + xp.einsum("ji,jk,kl,nli->n", M, L0, M, px["S"])
+        A_inv = xp.einsum("abc,acd->abd", obj.Lambda, par["A"])[0]
+        terms = w.vmap(lambda Wi, ai: obj.get_lb_heteroscedastic_term_i(p_x, y, Wi, ai))(obj.W, A_inv.T)     # [Dk, 1, N]
+        w.equal("get_lb_quadratic_term=homoscedastic - sum_k term_k", val, hom[None] - xp.sum(terms, axis=0))
+    return ob
+
+
+REG.ob("HeteroscedasticHeavisideConditional.get_lb_heteroscedastic_term_i", sorts=["N", "Dx", "Dy"], order={("Dy", "Dy"): False},
+       funcs=["approximate_conditional.HeteroscedasticHeavisideConditional.get_lb_heteroscedastic_term_i", "pdf.GaussianPDF.get_density_of_linear_sum",
+              "pdf.GaussianPDF.get_marginal", "pdf.GaussianPDF.condition_on_explicit",
+              "experimental.truncated_measure.TruncatedGaussianMeasure.integrate_x", "experimental.truncated_measure.TruncatedGaussianMeasure.integrate_x_pow_2"],
+       axioms=["G1 Gaussian integral", "G3 conditional law of a jointly Gaussian pair", "G4 truncated Gaussian integrals"])(_mk_heaviside_term())
+REG.ob("HeteroscedasticHeavisideConditional.get_lb_quadratic_term/assembly", sorts=["N", "Dx", "Dy"], order={("Dy", "Dy"): False},
+       funcs=["approximate_conditional.HeteroscedasticConditional.get_lb_quadratic_term"],
+       axioms=["jax.vmap: map over the leading axis", "G2 Isserlis/Wick"])(_mk_heaviside_quadratic())
+
+
+REG.ob("HeteroscedasticHeavisideConditional.get_lb_log_det", sorts=["N", "Dx", "Dy"], order={("Dy", "Dy"): False},
+       funcs=["approximate_conditional.HeteroscedasticHeavisideConditional.get_lb_log_det", "pdf.GaussianPDF.get_density_of_linear_sum",
+              "experimental.truncated_measure.TruncatedGaussianMeasure.integral"],
+       axioms=["G4 truncated Gaussian integrals", "jax.vmap: map over the leading axis"], lemmas=["GtvLemmas.det_gram_diag"])(_mk_heaviside_logdet())
+
+
 for _kind in ("exp", "coshm1"):
     _cls = LINKS[_kind]
     REG.ob(f"{_cls}.integrate_log_conditional_y/assembly", sorts=["N", "Dx", "Dy"],
